@@ -38,7 +38,7 @@ def bounds(tier):
     if tier == "quick":
         return {"ns_optim_max": B_OPTIM, "n_max": 10 ** 7, "conv_len_max": 300, "conv_value_pairs": [(3, 2), (5, 4), (6, 3), (4, 4), (7, 2)]}
     return {"ns_optim_max": B_OPTIM, "n_max": 10 ** 7, "conv_len_max": 5000,
-            "conv_value_pairs": [(a, b) for a in range(1, 11) for b in range(1, 6)] + [(20, 7), (13, 12), (25, 2)]}
+            "conv_value_pairs": [(a, b) for a in range(1, 13) for b in range(1, 7)] + [(20, 7), (13, 12), (25, 2), (40, 3), (24, 24)]}
 
 
 class Spectrum:
